@@ -9,6 +9,7 @@ import Driver.OpsMem
 import Driver.OpsMisc
 import Driver.OpsTree
 import Driver.OpsTree2
+import Driver.OpsApi
 import Driver.OpsFlat
 import Driver.OpsIO
 import Driver.OpsBasic
@@ -17,7 +18,7 @@ open Driver
 
 /-- stateless op families: each returns `none` for ops it does not know -/
 def families : List (String → List String → List String → Option (Except String (String × String))) :=
-  [ OpsSizes.handle, OpsSpec.handle, OpsBits.handle, OpsBitfields.handle, OpsMem.handle, OpsMisc.handle, OpsMerkle.handle, OpsConv.handle, OpsTree.handle, OpsTree2.handle, OpsFlat.handle, OpsIO.handle, OpsBasic.handle ]
+  [ OpsSizes.handle, OpsSpec.handle, OpsBits.handle, OpsBitfields.handle, OpsMem.handle, OpsMisc.handle, OpsMerkle.handle, OpsConv.handle, OpsTree.handle, OpsTree2.handle, OpsFlat.handle, OpsIO.handle, OpsBasic.handle, OpsApi.handle ]
 
 /-- dispatch one line `op args… => impl observation…`: returns `<model> ## <verdict>` -/
 def handleLine (hs : OpsHist.HState) (line : String) : OpsHist.HState × String :=
